@@ -19,11 +19,11 @@ Record vdi := {
 Definition vdi_lookup (v : vdi) (idx : Z) : res Z := of_option (v_map v idx).
 
 (* one block's worth of a request: block value e, block idx, offset io, n bytes *)
-Definition vdi_emit (v : vdi) (e idx io n : Z) : list seg :=
-  if e =? UNALLOCATED then
-    (if v_parent v then [SParent (idx * v_bs v + io) n] else [SZero n])
-  else if e =? SPARSE then [SZero n]
-  else [SFile (v_data v + e * v_bs v + io) n].
+Definition vdi_emit (v : vdi) (e idx io n : Z) : res (list seg) :=
+  Ok (if e =? UNALLOCATED then
+        (if v_parent v then [SParent (idx * v_bs v + io) n] else [SZero n])
+      else if e =? SPARSE then [SZero n]
+      else [SFile (v_data v + e * v_bs v + io) n]).
 
 (* VDI._read: clamp to the disk size, then walk block by block *)
 Definition vdi_read (v : vdi) (fuel : nat) (offset length : Z) : res (list seg) :=
